@@ -311,6 +311,41 @@ func runC13(c *Ctx) {
 		}
 	}
 
+	// ---- C13.1 (round 16): a set's elements are flattened into their parent, so whichever pass over a list of
+	// wire patterns looks at wire.Bind elements also descends into inline wire.NewSet elements (C13-m31)
+	nBindPasses := 0
+	for _, fn := range migFuncs(L) {
+		asserted := map[string]bool{}
+		var at ssa.Instruction
+		for _, b := range fn.Blocks {
+			for _, in := range b.Instrs {
+				ta, ok := in.(*ssa.TypeAssert)
+				if !ok {
+					continue
+				}
+				xn, ok := ta.X.Type().(*types.Named)
+				if !ok || xn.Obj().Name() != "WirePattern" || xn.Obj().Pkg() == nil || xn.Obj().Pkg().Path() != p.Types.Path() {
+					continue
+				}
+				if pt, ok := ta.AssertedType.(*types.Pointer); ok {
+					if nt, ok := pt.Elem().(*types.Named); ok {
+						asserted[nt.Obj().Name()] = true
+						if nt.Obj().Name() == "WireBind" && at == nil {
+							at = in
+						}
+					}
+				}
+			}
+		}
+		if !asserted["WireBind"] {
+			continue
+		}
+		nBindPasses++
+		c.seen(fnName(fn))
+		c.check(asserted["WireNewSet"], "C13.1", fnName(fn)+":bind-pass-descends-into-inline-sets", L.pos(at.Pos()), "a pass over wire patterns that looks at wire.Bind elements also has a case for inline wire.NewSet elements (their bindings belong to the enclosing set)", fmt.Sprintf("cases %v", sortedKeys(asserted)))
+	}
+	c.floor("C13.1", "passes over wire patterns that look at Bind elements", nBindPasses, 3)
+
 	// ---- C13.2 provider provenance
 	nProv := 0
 	for _, st := range storesToField(migFuncs(L), "internal/migrate.KessokuProvide.FuncExpr") {
